@@ -3,6 +3,8 @@
 canonical form: white space outside string/char literals removed, fields whose value is a `SourceSpan`
 dropped, `RealLiteral.value` replaced by the IEEE-754 bits (`R:` prefix in the model = the text handed
 to `f64::from_str`)."""
+import sys
+sys.setrecursionlimit(50000)
 import struct
 
 
@@ -107,7 +109,8 @@ def canon(t, in_real=False):
     if t.kind == 'list':
         return '[' + ','.join(canon(x) for x in t.items) + ']'
     if t.kind == 'tuple':
-        return t.name + '(' + ','.join(canon(x) for x in t.items) + ')'
+        # a SourceSpan payload (`InitialValueAssignmentKind::None(span)`) is dropped like a SourceSpan field
+        return t.name + '(' + ','.join(canon(x) for x in t.items if not (x.kind == 'struct' and x.name == 'SourceSpan')) + ')'
     fields = []
     for fname, v in t.items:
         if v.kind == 'struct' and v.name == 'SourceSpan':
